@@ -212,6 +212,19 @@ def known_functions():
     return _KNOWN
 
 
+_GLOBALS = None
+
+
+def known_globals():
+    global _GLOBALS
+    if _GLOBALS is None:
+        import json
+        import os
+        with open(os.path.join(os.path.dirname(os.path.abspath(__file__)), 'tables', 'known_functions.json')) as f:
+            _GLOBALS = set(json.load(f).get('globals', []))
+    return _GLOBALS
+
+
 def renamed_params(fi):
     """{current parameter name: name at rule-writing time} for a function whose parameters have been renamed since (same arity, same kinds); {} otherwise"""
     _load_known()
